@@ -916,3 +916,82 @@ Proof.
   | |- context [if ?z then _ else _] => destruct z eqn:?; cbn [fst snd]
   end.
 Qed.
+
+(* (c) steady state: serving the same request again — whatever the request in between left in
+   tsrParams — on contexts whose capacities are at least what the first run needed (capacities
+   only grow, and at least to the length reached) has no growth event in any of the three buffers *)
+Theorem warm_context_no_growth : forall r m host path stale1 stale2 caps caps',
+  hw_le (hw_max caps (serve_marks r m host path stale1)) caps' ->
+  grows caps' (serve_marks r m host path stale2) = false.
+Proof.
+  intros r m host path stale1 stale2 caps caps' (H1 & H2 & H3).
+  unfold serve_marks in *. rewrite (marks_ignore_stale_tsrparams _ _ _ _ _ _ _ stale2 stale1).
+  set (h := snd (roots_lookupI big_fuel r m host path false [] stale1 hw0)) in *.
+  unfold hw_max in *; cbn [h_ps h_tps h_sks] in *.
+  unfold grows, grow_ps, grow_tps, grow_sks.
+  rewrite !Bool.orb_false_iff. repeat split; apply Nat.ltb_ge; lia.
+Qed.
+
+(* a cold context (capacities of allocateContext) already suffices for params and tsrParams;
+   only the skipped-node stack may have to grow, and at most up to sroots *)
+Theorem cold_context_growth_only_skipnds : forall (t : txn) m host path stale,
+  wroots (t_roots t) <= t_maxparams t ->
+  grows (txn_caps t) (serve_marks (t_roots t) m host path stale) =
+  grow_sks (txn_caps t) (serve_marks (t_roots t) m host path stale).
+Proof.
+  intros t m host path stale Hw. unfold grows, serve_marks.
+  destruct (params_bounded big_fuel t m host path false stale Hw) as [-> ->]. reflexivity.
+Qed.
+
+(* depth does NOT bound the skipped-node stack: every level of the descent can push two entries *)
+Definition rt (p : string) : option route := Some {| rpat := S2B p; rid := 0%N |}.
+Definition ladder_roots : roots :=
+  [Node (S2B "GET") None
+     [Node (S2B "/a/") None
+        [Node (S2B "*{q}") (rt "/a/*{q}") [];
+         Node (S2B "b/") None
+           [Node (S2B "*{y}") (rt "/a/b/*{y}") []; Node (S2B "c") (rt "/a/b/c") []; Node (S2B "{x}") (rt "/a/b/{x}") []];
+         Node (S2B "{p}") (rt "/a/{p}") []]]].
+Definition ladder_txn : txn := {| t_roots := ladder_roots; t_size := 5; t_maxparams := 1; t_depth := 3 |}.
+
+Theorem skipped_bounded_by_depth_refuted :
+  exists (t : txn) m host path,
+    wroots (t_roots t) <= t_maxparams t /\
+    grow_sks (txn_caps t) (serve_marks (t_roots t) m host path []) = true.
+Proof. exists ladder_txn, (S2B "GET"), [], (S2B "/a/b/c"). vm_compute. split; [lia|reflexivity]. Qed.
+
+(* ---------- non-vacuity ---------- *)
+Definition wide_roots : roots :=
+  [Node (S2B "GET") None [Node (S2B "/{a}/{b}/*{c}") (rt "/{a}/{b}/*{c}") []]].
+Definition wide_txn : txn := {| t_roots := wide_roots; t_size := 1; t_maxparams := 3; t_depth := 1 |}.
+
+(* the bound of params_bounded is attained: three wildcards, three entries *)
+Example params_bound_attained :
+  wroots (t_roots wide_txn) <= t_maxparams wide_txn /\
+  h_ps (serve_marks (t_roots wide_txn) (S2B "GET") [] (S2B "/x/y/z/w") []) = 3 /\
+  fst (roots_lookupI big_fuel wide_roots (S2B "GET") [] (S2B "/x/y/z/w") false [] [] hw0) =
+    Found (Some (Node (S2B "/{a}/{b}/*{c}") (rt "/{a}/{b}/*{c}") [])) false
+          [(S2B "a", S2B "x"); (S2B "b", S2B "y"); (S2B "c", S2B "z/w")] [].
+Proof. vm_compute. repeat split; lia. Qed.
+
+(* the bound of skipped_bounded is attained on the ladder (4 = sroots), above depth = 3 *)
+Example skipped_bound_attained :
+  h_sks (serve_marks ladder_roots (S2B "GET") [] (S2B "/a/b/c") []) = 4 /\ sroots ladder_roots = 4 /\ t_depth ladder_txn = 3.
+Proof. vm_compute. repeat split. Qed.
+
+(* warm_context_no_growth on the ladder: the cold run grows skipNds, the next one grows nothing *)
+Example warm_after_cold_growth :
+  let cold := txn_caps ladder_txn in
+  let h := serve_marks ladder_roots (S2B "GET") [] (S2B "/a/b/c") [] in
+  grows cold h = true /\
+  grows (hw_max cold h) (serve_marks ladder_roots (S2B "GET") [] (S2B "/a/b/c") [(S2B "stale", S2B "entry")]) = false.
+Proof. vm_compute. split; reflexivity. Qed.
+
+(* a request with a trailing-slash recommendation writes tsrParams (so its mark is exercised) *)
+Definition tsr_roots : roots :=
+  [Node (S2B "GET") None [Node (S2B "/{a}/x/") (rt "/{a}/x/") []]].
+Example tsr_marks_exercised :
+  h_tps (serve_marks tsr_roots (S2B "GET") [] (S2B "/v/x") []) = 1 /\
+  model_outcome (fst (roots_lookupI big_fuel tsr_roots (S2B "GET") [] (S2B "/v/x") false [] [] hw0)) =
+    Some (true, true, S2B "/{a}/x/").
+Proof. vm_compute. split; reflexivity. Qed.
